@@ -89,7 +89,8 @@ Print Assumptions C10_framing.
    of the process started by Executor.ExecWithTimeout for the name=value list e: ExecCommand's preset entries
    (SANDBOX_UID / SHARE_NETWORK / SHARE_MOUNT for sandboxed commands), e appended, os/exec's "empty list = inherit the
    parent" and "last entry wins", and - built-in sandbox - `plz sandbox` rewriting $TMP_DIR to /tmp/plz_sandbox.
-   `build_env_sb sx` is BuildEnvironment for a target with the sandbox attributes sx.
+   `build_env_sb sx` is BuildEnvironment for a target with the sandbox attributes sx; the process is started in the
+   target's temp dir (cmd.Dir = tmp).
    For every sandbox mode, every sandbox configuration, all configurations/targets/callers/enumeration orders:
    (a) the process environment is determined by configuration, target and the LISTED caller variables;
    (b) every variable the process sees is a key of the environment map or one of ExecCommand's fixed entries, and its
@@ -99,10 +100,10 @@ Theorem C10_sandbox :
   (forall mode uid net mount sx cfg t tmp c1 c2 e1 e2,
       NoDup (map fst (t_env t)) -> Permutation e1 (t_env t) -> Permutation e2 (t_env t) ->
       agree c1 c2 (reads cfg t) ->
-      action_env mode uid net mount c1 (build_env_sb sx cfg (with_env t e1) tmp c1)
-      = action_env mode uid net mount c2 (build_env_sb sx cfg (with_env t e2) tmp c2))
-  /\ (forall mode uid net mount caller sx cfg t tmp a,
-        action_env mode uid net mount caller (build_env_sb sx cfg t tmp caller) = Some a ->
+      action_env mode uid net mount c1 tmp (build_env_sb sx cfg (with_env t e1) tmp c1)
+      = action_env mode uid net mount c2 tmp (build_env_sb sx cfg (with_env t e2) tmp c2))
+  /\ (forall mode uid net mount caller dir sx cfg t tmp a,
+        action_env mode uid net mount caller dir (build_env_sb sx cfg t tmp caller) = Some a ->
         (forall k v, lookup k a = Some v ->
            In k (map fst (build_env_sb sx cfg t tmp caller)) \/ In k (map fst (exec_preset mode uid net mount)))
         /\ exists f : str -> str, forall k,
@@ -111,9 +112,9 @@ Theorem C10_sandbox :
                                         | None => entry_of k (exec_preset mode uid net mount) end)).
 Proof.
   split; [exact action_env_determined|].
-  intros mode uid net mount caller sx cfg t tmp a Ha. split.
-  - intros k v Hk. exact (action_env_keys _ _ _ _ _ _ _ k v (build_env_sb_nonempty sx cfg t tmp caller) Ha Hk).
-  - exact (action_env_lookup _ _ _ _ _ _ _ (build_env_sb_nonempty sx cfg t tmp caller) Ha).
+  intros mode uid net mount caller dir sx cfg t tmp a Ha. split.
+  - intros k v Hk. exact (action_env_keys _ _ _ _ _ _ _ _ k v (build_env_sb_nonempty sx cfg t tmp caller) Ha Hk).
+  - exact (action_env_lookup _ _ _ _ _ _ _ _ (build_env_sb_nonempty sx cfg t tmp caller) Ha).
 Qed.
 Print Assumptions C10_sandbox.
 
@@ -126,8 +127,9 @@ Example C10_followup_nonvacuous :
   let sx := {| sb_target := true; sb_resolve := true; sb_dirs := [s "/etc/ssl"] |} in
   let c1 := [(s "T_A", s "1"); (s "CI_JOB_TOKEN", s "hunter2")] in
   let c2 := [(s "T_A", s "1"); (s "USER", s "me")] in
-  let a1 := action_env SbBuiltin (s "0") true true c1 (build_env_sb sx cfg t (s "/r/plz-out/tmp/t._build") c1) in
-  a1 = action_env SbBuiltin (s "0") true true c2 (build_env_sb sx cfg t (s "/r/plz-out/tmp/t._build") c2)
+  let tmp := s "/r/plz-out/tmp/t._build" in
+  let a1 := action_env SbBuiltin (s "0") true true c1 tmp (build_env_sb sx cfg t tmp c1) in
+  a1 = action_env SbBuiltin (s "0") true true c2 tmp (build_env_sb sx cfg t tmp c2)
   /\ (exists a, a1 = Some a /\ lookup (s "T_A") a = Some (s "1") /\ lookup (s "CI_JOB_TOKEN") a = None
         /\ lookup (s "X1") a = Some (s "/tmp/plz_sandbox/x") /\ lookup (s "TMP_DIR") a = Some (s "/tmp/plz_sandbox")
         /\ lookup (s "SANDBOX_DIRS") a = Some (s "/etc/ssl") /\ lookup (s "SANDBOX_UID") a = Some (s "0")
